@@ -41,6 +41,7 @@ type Class struct {
 	Variadic     string   // "" or the Go element type of a variadic last parameter (of stage VarStage for compose)
 	VarStage     int      // compose: which stage is variadic
 	siteTag      string   // set on the copy that generates the second call site
+	noQuals      bool     // internal: SigWire without the (quals …) part
 	Split        bool     // bind: `fn, e := deriveFmap(f, g)` observed before `deriveJoin(fn, e)` (else the nested call)
 }
 
@@ -83,6 +84,19 @@ func wireInts(head string, ns []int) string {
 
 // SigWire is the description of the class in an op line (after the cfg part).
 func (c *Class) SigWire() string {
+	if !c.noQuals {
+		// the package names that qualify types printed in the signature: only unsafe.Pointer (type 18) has one
+		d := *c
+		d.noQuals = true
+		for _, ts := range [][]int{ptys(c.Ps), ptys(c.Outer), ptys(c.Inner), c.Rs} {
+			for _, t := range ts {
+				if t == 18 {
+					return d.SigWire() + " (quals unsafe)"
+				}
+			}
+		}
+		return d.SigWire()
+	}
 	if len(c.Rn) > 0 {
 		d := *c
 		d.Rn = nil
